@@ -90,6 +90,14 @@ CHECKS = {
                      'line break.',
                 note='TLC; recorder. Crashes of the (unfinished) indentation-stack logic are listed as known findings by crash site.',
                 ref='2.5, 3 C20'),
+    'C15': dict(level=MC, tech='TLA+ spec Lines (line scanner + PEP 263 header decision) evaluated by TLC on real split_lines / python_bytes_to_unicode results; generators Strings and Headers enumerated by TLC',
+                text='Exhaustive in the abstract alphabets: every string up to 5 (quick) / 6 (thorough) over all str.splitlines '
+                     'separators plus an ordinary character, and one trace per code point, validated against the TLA+ scanner '
+                     'and its laws (>= 1 line, joins back, only \\n \\r\\n \\r split, keepends on/off, line count = breaks + 1 = '
+                     'module end line); every abstract two-line header (7 line classes x 6 encodings x BOM x 3 bodies) rendered to '
+                     'bytes: parso must give the text CPython gives whenever CPython can decode it.',
+                note='TLC; CPython reference = tokenize.detect_encoding + decode of the interpreter running the harness.',
+                ref='2.9, 3 C15'),
     'C16': dict(level=MC, tech='TLA+ spec Cache (one action per step of the cache protocol + environment) model-checked by TLC; its histories replayed into the real cache (virtual clock, preemption at file operations) and validated by TLC against CacheTrace',
                 text='TLC checks Transparent/NoForeign on every reachable state of the Cache protocol (writes, time, restarts, a '
                      'second process, eviction, removed/damaged pickles; up to 2 paths x 2 grammars x 2 dirs) and confirms that '
